@@ -249,7 +249,10 @@ def _load():
                      "runs generated swarm-style from sub(VERIF_SEED,'C01',tier,i); distinct = distinct history digest "
                      "(events+micro-events+samples+draws+records); non-trivial = >=1 transfer between service nodes and >=1 exit",
                      B(40000, 500000)))
-    register(Profile("C02", [C02], [(4, wide), (2, faulty), (1, dict(wide, renege=0.7, **LINGER))],
+    # pre-emptive priorities where customers also renege: a victim goes back to waiting and its dates must be re-armed correctly
+    pre_ren = profile(prio=1.0, preempt=1.0, preempt_opts=["resume", "restart", "resample"], renege=0.9, cct=0.25, k=[3, 3, 2], n=[1, 1, 2],
+                      sched=0.1, qcap=0.15, slot=0.0, ps=0.0, inf=0.0, zero=0.0)
+    register(Profile("C02", [C02], [(4, wide), (2, faulty), (1, dict(wide, renege=0.7, **LINGER)), (1, pre_ren)],
                      "distinct history digest; non-trivial = >=1 tie (two consecutive events at one date) and records of >=2 types",
                      B(40000, 500000)))
     register(Profile("C14", [C14], [(2, wide), (1, faulty), (1, dict(wide, np_samples=0.5, exact=0.0)), (1, profile(plan={"time": 0.4, "cust": 0.6, "deadlock": 0.0})),
